@@ -1,6 +1,6 @@
 (* C03 — Keep client and collection reads never deliver bytes that mismatch the locator: property
    theorems only.  Each is closed by `exact` of a lemma from proofs/C03_proofs.v / proofs/C03_run_proofs.v /
-   proofs/C03_spec.v / proofs/C03_loc_proofs.v.
+   proofs/C03_err_proofs.v / proofs/C03_spec.v / proofs/C03_loc_proofs.v.
 
    Vocabulary (model/C03_model.v, model/C03_run.v):
      H                 the digest (hex md5 in the implementation): an ARBITRARY function in every theorem; where
@@ -17,11 +17,15 @@
                        ops_loc_ok (results against the LOCATOR alone: digest and size hint, for every block whatever
                        its locator says; the length clauses are conditional on declared_only / loc_guard, functions of
                        the case input: "every scripted 200 answer of the block declares a Content-Length").
+     spec_b (cont.)    ... && (ob_sync implies ops_err_ok): the error class of every failed Get/ReadAt against the answers
+                       the services gave to the requests of that very operation (ob_nreq cuts ob_log into one segment
+                       per operation; the answer of log entry (block, service, attempt) is the script's entry), guarded by
+                       nodupb (b_order ..).  answers, last_of, has404, last404, last_retry, class_ok: model/C03_run.v.
      declared_only bl  no scripted answer of bl is a 200 without Content-Length.
      loc_guard i bl    bl's locator does not take the empty-block short cut, and every block of the case with the same
                        hash (= cache key) has the same locator and is declared_only. *)
 From Coq Require Import Arith NArith List String Bool.
-From AV Require Import lib.Str model.C03_model model.C03_run proofs.C03_proofs proofs.C03_run_proofs proofs.C03_spec proofs.C03_loc_proofs.
+From AV Require Import lib.Str model.C03_model model.C03_run proofs.C03_proofs proofs.C03_run_proofs proofs.C03_err_proofs proofs.C03_spec proofs.C03_loc_proofs.
 Import ListNotations.
 Local Open Scope nat_scope.
 
@@ -149,10 +153,11 @@ Print Assumptions C03_not_found_classes.
 
 (* The oracle that judges the implementation is met by the model for every input: for every script of service
    behaviours and every operation sequence over consistent blocks, the results of the model's run pass spec_b
-   (all three parts: content clauses, all-404 clause, locator clauses). *)
+   (all four parts: content clauses, all-404 clause, locator clauses, error-class clause). *)
 Theorem C03_model_meets_spec : forall i,
   (forall bl, In bl (i_blocks i) -> Cons i bl) -> Forall (op_wf i) (i_ops i) ->
-  spec_b {| c_in := i; c_obs := {| ob_res := fst (run_model i); ob_log := cs_log (snd (run_model i)); ob_sync := true |} |} = true.
+  spec_b {| c_in := i; c_obs := {| ob_res := fst (run_model i); ob_log := cs_log (snd (run_model i));
+                                   ob_nreq := run_nreq i; ob_sync := true |} |} = true.
 Proof. exact model_meets_spec. Qed.
 Print Assumptions C03_model_meets_spec.
 
@@ -177,17 +182,68 @@ Print Assumptions C03_cache_holds_locator_size.
    read, the announced size is the locator's" (consistent blocks); NotFoundSpec = all-404 gives BlockNotFound;
    LocSpec = per operation, for any block: announced size = size hint, a complete successful read has the locator's
    digest and (DeclaredOnly) the locator's size, a successful cached read (LocGuard) lies inside the locator's size,
-   has the length of the requested slice, and has the locator's digest when it covers the whole block *)
+   has the length of the requested slice, and has the locator's digest when it covers the whole block;
+   OpsErrSpec = per operation (request log cut by ob_nreq) ErrSpec = ClassSpec of the operation's error against the
+   answers to its own requests (judged when the harness could attribute the requests: ob_sync) *)
 Theorem C03_spec_b_reflects_Spec : forall c : case,
   spec_b c = true <->
   (Forall2 (OpSpec (c_in c)) (i_ops (c_in c)) (ob_res (c_obs c)) /\ NotFoundSpec (c_in c) (ob_res (c_obs c)) /\
-   Forall2 (LocSpec (c_in c)) (i_ops (c_in c)) (ob_res (c_obs c))).
+   Forall2 (LocSpec (c_in c)) (i_ops (c_in c)) (ob_res (c_obs c)) /\
+   (ob_sync (c_obs c) = true ->
+    OpsErrSpec (c_in c) (i_ops (c_in c)) (ob_res (c_obs c)) (ob_nreq (c_obs c)) (ob_log (c_obs c)))).
 Proof. exact spec_b_reflects. Qed.
 Print Assumptions C03_spec_b_reflects_Spec.
 
 Theorem C03_loc_ok_reflects_LocSpec : forall i o r, loc_ok i o r = true <-> LocSpec i o r.
 Proof. exact loc_ok_reflects. Qed.
 Print Assumptions C03_loc_ok_reflects_LocSpec.
+
+(* ---- the error class of a failed read ---- *)
+(* which answers count as "404" and as "retryable" *)
+Theorem C03_answer_classes : forall r,
+  (is404b r = true <-> exists d b c, r = Resp 404 d b c) /\
+  (retryableb r = true <-> r = ConnErr \/ exists st d b c, r = Resp st d b c /\ (st = 408 \/ st = 429 \/ 500 <= st)%N).
+Proof. exact answer_classes. Qed.
+Print Assumptions C03_answer_classes.
+
+(* class_ok is exactly: if the probe order has no duplicates then ClassSpec — BlockNotFound only if every service
+   answered 404 to one of the operation's requests; temporary only if some service's last answer was retryable;
+   permanent only if none was; and BlockNotFound whenever every service's last answer was a 404 *)
+Theorem C03_class_ok_reflects_ClassSpec : forall order al e,
+  class_ok order al e = true <-> (NoDup order -> ClassSpec order al e).
+Proof. exact class_ok_iff. Qed.
+Print Assumptions C03_class_ok_reflects_ClassSpec.
+
+(* one call of getOrHead("GET"), any oracle, any number of retries: a failure is classified by the answers to the
+   call's own requests (ans_of oracle (g_log ..) = the (service, answer) list in request order).  Behind it: a
+   service is asked again in the next round exactly when its answer was retryable, never after a 404, and the 404
+   counter counts each service once (proofs/C03_err_proofs.v: Inv, inv_step). *)
+Theorem C03_get_or_head_error_class : forall oracle retries order loc e,
+  NoDup order -> g_res (get_or_head oracle retries order loc) = GErr e ->
+  ClassSpec order (ans_of oracle (g_log (get_or_head oracle retries order loc))) e.
+Proof. exact get_or_head_error_class. Qed.
+Print Assumptions C03_get_or_head_error_class.
+
+(* the whole session, for every input (no hypothesis): every failed Get / ReadAt / concurrent ReadAt of the model's
+   run carries the error class that the answers to its own requests dictate; run_nreq i = the number of requests
+   each operation of the run causes *)
+Theorem C03_model_respects_error_class : forall i,
+  ops_err_ok i (i_ops i) (fst (run_model i)) (run_nreq i) (cs_log (snd (run_model i))) = true.
+Proof. exact model_errclass_ok. Qed.
+Print Assumptions C03_model_respects_error_class.
+
+(* an instance: service 0 answers 500 then 404, service 1 always 500, Retries = 2.  The model asks 0 1 | 0 1 | 1 and
+   reports a temporary error; the clause rejects BlockNotFound for these requests, and also for the request sequence
+   0 1 | 0 1 | 0 1 1 of a client whose retry list accumulates over the rounds *)
+Theorem C03_error_class_example :
+  fst (run_model ex_retry_in) = [RGet ETemp 0 0 "" ENil ENil] /\
+  cs_log (snd (run_model ex_retry_in)) = [(0, 0, 0); (0, 1, 0); (0, 0, 1); (0, 1, 1); (0, 1, 2)] /\
+  run_nreq ex_retry_in = [5] /\
+  err_ok ex_retry_in (OGet 0 MReadAll) (RGet ENotFound 0 0 "" ENil ENil) (cs_log (snd (run_model ex_retry_in))) = false /\
+  err_ok ex_retry_in (OGet 0 MReadAll) (RGet ENotFound 0 0 "" ENil ENil)
+         [(0, 0, 0); (0, 1, 0); (0, 0, 1); (0, 1, 1); (0, 0, 2); (0, 1, 2); (0, 1, 3)] = false.
+Proof. exact error_class_example. Qed.
+Print Assumptions C03_error_class_example.
 
 (* what the locator clauses demand of a streaming Get whose ReadAll ended in EOF, spelled out: the bytes have the
    locator's digest; the announced size is the size hint; and when every scripted 200 answer of the block declares
